@@ -41,7 +41,11 @@ func VerifC05Raw() {
 	}
 	nd.Bound("C05.raw_body_bytes", maxL)
 	var body string
-	switch nd.Choice(4) {
+	switch nd.Choice(6) {
+	case 4: // whitespace-control hyphens inside the body are text like everything else
+		body = " {{" + c05Ascii(1) + "x" + c05Ascii(1) + "}} "
+	case 5:
+		body = "\n{%" + c05Ascii(1) + "x" + c05Ascii(1) + "%}\t"
 	case 0:
 		body = c05Ascii(nd.Choice(maxL + 1))
 	case 1:
@@ -55,12 +59,12 @@ func VerifC05Raw() {
 	for i := 0; i+1 < len(body); i++ {
 		nd.Assume(!(body[i] == '{' && body[i+1] == '%' && c05HasEnd(body[i:])))
 	}
-	out, err := vRender("a{% raw %}"+body+"{% endraw %}b", Bindings{})
+	out, err := vRender("a {% raw %}"+body+"{% endraw %} b", Bindings{})
 	nd.Assert(err == nil, "raw-renders")
-	nd.Assert(out == "a"+body+"b", "raw-body-verbatim")
-	out, err = vRender("a{% comment %}"+body+"{% endcomment %}b", Bindings{})
+	nd.Assert(out == "a "+body+" b", "raw-body-verbatim")
+	out, err = vRender("a {% comment %}"+body+"{% endcomment %} b", Bindings{})
 	nd.Assert(err == nil, "comment-renders")
-	nd.Assert(out == "ab", "comment-contributes-nothing")
+	nd.Assert(out == "a  b", "comment-contributes-nothing")
 	nd.Reach("C05.raw")
 }
 
